@@ -24,7 +24,7 @@ RULE = ("connect_coding_graph(k, mask, t) for every order-2 mask x t in 1..4, ra
         "read-only trap); a sub-mask never yields more arcs; for t >= 2 latter_map_to_accessor(accessor_to_latter_map("
         "connect_valid_graph(mask)), k, threshold=t) is the same graph (all -1 when empty). Non-trivial: trimming removed "
         "at least one vertex or the call raised; distinct = hash of (k, mask, t, dtype)."
-        ' Also: masks found by hill climbing that need up to 13 pruning sweeps (props/corpus_deep_masks.json), induced cycles of 3^(k-1) out-degree-1 vertices (k = 5..8) next to a small branching core, closed graphs of k+1 vertices at the orders 7..10, and one latter-map object trimmed at thresholds 4, 3, 2 in turn with a digest of the map before and after; thresholds passed as numpy integers (connect_coding_graph and latter_map_to_accessor) and a verbose=True twin of the generation call.')
+        ' Also: masks found by hill climbing that need up to 13 pruning sweeps (props/corpus_deep_masks.json), induced cycles of 3^(k-1) out-degree-1 vertices (k = 5..8) next to a small branching core, closed graphs of k+1 vertices at the orders 7..10, and one latter-map object trimmed at thresholds 4, 3, 2 in turn with a digest of the map before and after; thresholds passed as numpy integers (connect_coding_graph and latter_map_to_accessor) and a verbose=True twin of the generation call; thin masks found by an oracle-side simulation of the clean-up in which one vertex loses two successors in the same withdrawal step.')
 
 
 def setup(ctx):
@@ -101,6 +101,96 @@ def _long_cycle_mask(rng, k):
     return mask
 
 
+def lockstep(k, S):
+    """Simulate the threshold-1 clean-up (degree closure, then withdrawal of vertices that reach no branching vertex, one seed at a
+    time in ascending order).  True when within one withdrawal step the same predecessor loses two arcs."""
+    n=4**k
+    S=set(S)
+    while True:
+        drop={v for v in S if not any(((v*4+j)%n) in S for j in range(4))}
+        if not drop: break
+        S-=drop
+    if not S: return False
+    succ={v:{(v*4+j)%n for j in range(4) if (v*4+j)%n in S} for v in S}
+    top=n//4
+    preds=lambda v:[v//4+j*top for j in range(4)]
+    hit=False
+    while True:
+        reach={v for v in succ if len(succ[v])>1}
+        fr=list(reach)
+        while fr:
+            x=fr.pop()
+            for u in preds(x):
+                if u in succ and x in succ[u] and u not in reach:
+                    reach.add(u); fr.append(u)
+        useless=sorted(v for v in succ if succ[v] and v not in reach)
+        if not useless: return hit
+        for u in useless:
+            succ[u]=set()
+            pairs=[(p,u) for p in preds(u)]
+            while pairs:
+                formers=[p for p,_ in pairs if p in succ]
+                if len(formers)!=len(set(formers)):
+                    # the same predecessor twice in one step: does it really lose two arcs?
+                    cnt={}
+                    for p,l in pairs:
+                        if p in succ and l in succ[p]: cnt[p]=cnt.get(p,0)+1
+                    if any(c>=2 for c in cnt.values()): hit=True
+                new=[]
+                for p,l in pairs:
+                    if p in succ and l in succ[p]:
+                        succ[p].discard(l)
+                        if not succ[p]:
+                            new+=[(q,p) for q in preds(p)]
+                pairs=new
+
+
+def wave_lockstep(k, S):
+    """Same clean-up, withdrawn in waves from all useless vertices at once.  True when, in a wave after the first recount, a
+    vertex loses two or more successors at once and is left without any (a per-wave counter that is decremented once per
+    vertex instead of once per arc never sees it die)."""
+    n = 4 ** k
+    S = set(S)
+    while True:
+        drop = {v for v in S if not any(((v * 4 + j) % n) in S for j in range(4))}
+        if not drop:
+            break
+        S -= drop
+    if not S:
+        return False
+    succ = {v: {(v * 4 + j) % n for j in range(4) if (v * 4 + j) % n in S} for v in S}
+    top = n // 4
+    preds = lambda v: [v // 4 + j * top for j in range(4)]
+    for _round in range(64):
+        reach = {v for v in succ if len(succ[v]) > 1}
+        fr = list(reach)
+        while fr:
+            x = fr.pop()
+            for u in preds(x):
+                if u in succ and x in succ[u] and u not in reach:
+                    reach.add(u)
+                    fr.append(u)
+        useless = {v for v in succ if succ[v] and v not in reach}
+        if not useless:
+            return False
+        for u in useless:
+            succ[u] = set()
+        for v in succ:
+            succ[v] -= useless
+        wave = {v for v in reach if not succ[v]}          # first wave: a full recount
+        while wave:
+            lost = {}
+            for d in wave:
+                for p in preds(d):
+                    if p in succ and d in succ[p]:
+                        succ[p].discard(d)
+                        lost[p] = lost.get(p, 0) + 1
+            if any(c >= 2 and not succ[p] for p, c in lost.items()):
+                return True
+            wave = {p for p in lost if not succ[p]}
+    return False
+
+
 def _at_most_one_mask(k, a, c):
     """All k-mers over {a, c} with at most one c: a closed graph of k+1 vertices (two of them branching) at any order."""
     mask = [0] * (4 ** k)
@@ -122,6 +212,19 @@ def generate(ctx):
             if ctx.mine(i):
                 for dt in ("bool", "int64"):
                     yield "generate", dict(k=item["k"], mask=item["mask"], t=1, dtype=dt, fam="deep-sweeps")
+    found = 0
+    for _ in range(ctx.pick(40000, 200000)):
+        # oracle-side search: thin masks whose clean-up withdraws two arcs of one predecessor in the same step (two dying
+        # siblings), seen from one seed at a time and in waves from all useless vertices at once
+        k = rng.choice([3, 3, 3, 4])
+        d = rng.choice([0.15, 0.2, 0.25, 0.3])
+        S = {v for v in range(4 ** k) if rng.random() < d}
+        if lockstep(k, S) or wave_lockstep(k, S):
+            found += 1
+            m = [1 if v in S else 0 for v in range(4 ** k)]
+            yield "generate", dict(k=k, mask=G.mask_to_hex(m), t=1, dtype=rng.choice(["bool", "int64"]), fam="lockstep")
+            if found >= ctx.pick(40, 200):
+                break
     j = 0
     for k in (5, 6, 7, 8):
         if ctx.mine(j):
@@ -313,7 +416,7 @@ def check_generate(ctx, case):
     if ch:
         ctx.fail("argument-modified", "changed: %s" % ch)
     ctx.cls(tag)
-    if case["fam"] in ("long-cycle", "tiny-at-large-order", "deep-sweeps", "near-full-large-order", "sub-alphabet"):
+    if case["fam"] in ("lockstep", "long-cycle", "tiny-at-large-order", "deep-sweeps", "near-full-large-order", "sub-alphabet"):
         ctx.cls("family|" + case["fam"])
         ctx.obs("largest order generated", k)
     ctx.cls("rounds|%d" % min(rounds, 6))
@@ -429,7 +532,7 @@ def floors(agg, tier):
     for name, need in (("t1|information-free structure removed", 500), ("latter-map-route|checked", 1000), ("latter-map-route|threshold as a numpy integer", 10000),
                        ("threshold as a numpy integer / progress output twin", 3000),
                        ("monotonicity|checked", 500), ("rounds|3", 50),
-                       ("latter-map-route|one map object trimmed at 4, 3, 2 in turn", 500), ("family|long-cycle", 4),
+                       ("latter-map-route|one map object trimmed at 4, 3, 2 in turn", 500), ("family|long-cycle", 4), ("family|lockstep", 150),
                        ("family|tiny-at-large-order", 3), ("family|deep-sweeps", 10), ("family|near-full-large-order", 1), ("family|sub-alphabet", 30),
                        ("latter-map-route|map written in arbitrary order", 500), ("repeated after the returned graph was scrambled", 300),
                        ("preceded by edited predecessor/successor lists", 300)):
